@@ -16,8 +16,9 @@ Alphabet == { <<0, 0>>, <<1, 0>>, <<2, 0>>, <<3, 0>>, <<4, 0>>, <<5, 0>>, <<8, 0
 ValWords == << <<0, 0>>, <<4, 0>>, StdTagW(1), <<8, 0>>, StdTagW(4), <<1, 0>> >>
 ValueOf(k, len) == [j \in 1..len |-> ValWords[((k + j) % Len(ValWords)) + 1]]
 
-VARIABLES gen, ws, tail, tags, lens, muts, last
-vars == <<gen, ws, tail, tags, lens, muts, last>>
+VARIABLES gen, ws, tail, tags, lens, muts, last,
+          cleared     \* the builder object was used before and clear()ed (at most once per behaviour)
+vars == <<gen, ws, tail, tags, lens, muts, last, cleared>>
 
 Vals == [k \in 1..Len(tags) |-> ValueOf(k, lens[k])]
 
@@ -36,17 +37,17 @@ HdrAlphabet ==
 
 Init == /\ gen \in {"raw", "build", "hdr"}
         /\ ws = <<>> /\ tail = 0 /\ tags = <<>> /\ lens = <<>> /\ muts = 0
-        /\ last = [op |-> "init"]
+        /\ last = [op |-> "init"] /\ cleared = FALSE
 
 \* ---- raw generator
 AppendWord(w) == /\ gen = "raw" /\ tail = 0 /\ Len(ws) < MaxWords
                  /\ ws' = Append(ws, w) /\ last' = [op |-> "word"]
-                 /\ UNCHANGED <<gen, tail, tags, lens, muts>>
+                 /\ UNCHANGED <<gen, tail, tags, lens, muts, cleared>>
 HdrWord(w) == /\ gen = "hdr" /\ ws' = Append(ws, w) /\ last' = [op |-> "hdr"]
-              /\ UNCHANGED <<gen, tail, tags, lens, muts>>
+              /\ UNCHANGED <<gen, tail, tags, lens, muts, cleared>>
 SetTail(k) == /\ gen = "raw" /\ tail = 0 /\ Len(ws) <= 2
               /\ tail' = k /\ last' = [op |-> "tail"]
-              /\ UNCHANGED <<gen, ws, tags, lens, muts>>
+              /\ UNCHANGED <<gen, ws, tags, lens, muts, cleared>>
 
 \* ---- builder object (RtMessage::add_field / encode)
 AddField(r, n) ==
@@ -56,15 +57,19 @@ AddField(r, n) ==
             /\ UNCHANGED <<tags, lens>>
        ELSE /\ tags' = Append(tags, r) /\ lens' = Append(lens, n)
             /\ last' = [op |-> "add", tag |-> r]
-    /\ UNCHANGED <<gen, ws, tail, muts>>
+    /\ UNCHANGED <<gen, ws, tail, muts, cleared>>
+\* RtMessage::clear(): the object is empty again; what is built afterwards must not depend on what it held
+Clear == /\ gen = "build" /\ ws = <<>> /\ tags # <<>> /\ ~cleared
+         /\ tags' = <<>> /\ lens' = <<>> /\ cleared' = TRUE /\ last' = [op |-> "clear"]
+         /\ UNCHANGED <<gen, ws, tail, muts>>
 AddAll == /\ gen = "build" /\ ws = <<>> /\ tags = <<>>
           /\ tags' = [k \in 1..NumTags |-> k] /\ lens' = [k \in 1..NumTags |-> k % 3]
           /\ last' = [op |-> "addall"]
-          /\ UNCHANGED <<gen, ws, tail, muts>>
+          /\ UNCHANGED <<gen, ws, tail, muts, cleared>>
 DoEncode == /\ gen = "build" /\ ws = <<>>
             /\ ws' = Encode(tags, Vals, StdTagW)
             /\ last' = [op |-> "encode"]
-            /\ UNCHANGED <<gen, tail, tags, lens, muts>>
+            /\ UNCHANGED <<gen, tail, tags, lens, muts, cleared>>
 \* ---- structured mutations of an encoding
 Mutate == /\ gen = "build" /\ ws # <<>> /\ muts < MaxMut /\ Len(tags) <= MaxFields
           /\ muts' = muts + 1
@@ -74,13 +79,13 @@ Mutate == /\ gen = "build" /\ ws # <<>> /\ muts < MaxMut /\ Len(tags) <= MaxFiel
                   ws' = SubSeq(ws, 1, k - 1) \o SubSeq(ws, k + 1, Len(ws)) /\ last' = [op |-> "del", k |-> k]
              \/ \E w \in Alphabet : ws' = Append(ws, w) /\ last' = [op |-> "app", k |-> 0]
              \/ \E k \in 0..(Len(ws) - 1) : ws' = SubSeq(ws, 1, k) /\ last' = [op |-> "trunc", k |-> k]
-          /\ UNCHANGED <<gen, tail, tags, lens>>
+          /\ UNCHANGED <<gen, tail, tags, lens, cleared>>
 
 Next == \/ \E w \in Alphabet : AppendWord(w)
         \/ (gen = "hdr" /\ \E w \in HdrAlphabet : HdrWord(w))
         \/ \E k \in 1..3 : SetTail(k)
         \/ \E r \in BuildTags, n \in BuildLens : AddField(r, n)
-        \/ AddAll \/ DoEncode \/ Mutate
+        \/ AddAll \/ Clear \/ DoEncode \/ Mutate
 
 Spec == Init /\ [][Next]_vars
 
@@ -109,6 +114,6 @@ BuilderOrdered == \A k \in 1..(Len(tags) - 1) : tags[k] < tags[k + 1]
 
 Emit == ((ws' # <<>> \/ tail' # 0 \/ gen' = "raw") /\ (gen' = "hdr" => Len(ws') >= 2 * V(ws'[1]))) =>
     PrintT(ToJson([suite |-> "wire", gen |-> gen', ws |-> ws', tail |-> tail',
-                   tags |-> tags', lens |-> lens', op |-> last'.op,
+                   tags |-> tags', lens |-> lens', op |-> last'.op, cleared |-> cleared',
                    exp |-> Decode(ws', tail')]))
 =============================================================================
